@@ -315,6 +315,7 @@ Proof.
   destruct (stored_task c (Some jid) tid) as [st|] eqn:Hst; [|exact HP'].
   destruct (stored_task_facts c jid tid st R Hst) as (_ & _ & Hs & Hid & Hj & Hjn & Hw).
   destruct (c_nodes c !! nid) as [ni|]; [|exact HP'].
+  destruct (n_has_node ni) eqn:Hhas; cbn [negb]; [|exact HP'].
   unfold job_set_status. cbn [fst snd].
   destruct (node_add eps ni (set_status st Binding)) as [[ni' t2]|err] eqn:Hadd.
   - assert (Ht2 : t_job t2 = jid).
@@ -705,6 +706,7 @@ Proof.
   destruct (stored_task c (Some jid) tid) as [st|] eqn:Hst; [|discriminate].
   destruct (stored_task_facts c jid tid st R Hst) as (_ & _ & Hs & Hid & _).
   destruct (c_nodes c !! nid) as [ni|] eqn:Hni; [|discriminate].
+  destruct (n_has_node ni) eqn:Hhas; cbn [negb]; [|discriminate].
   pose proof (nr_id _ _ _ (rp_nodes c R nid ni Hni)) as Hidn.
   unfold job_set_status. cbn [fst snd].
   destruct (node_add eps ni (set_status st Binding)) as [[ni' t2]|err] eqn:Hadd; [|discriminate].
